@@ -299,7 +299,7 @@ def _seq(ix, e, f: FuncInfo, env, params, depth=0):
         r = ix.resolve_expr(f.module, e.func)
         if isinstance(r, FuncInfo) and r.module is f.module and r.cls is None and depth < 1:
             return _inline(ix, r, e, f, env, params, depth)
-        if last in TRANSPARENT and e.args and not isinstance(r, FuncInfo):
+        if last in TRANSPARENT and e.args and not (isinstance(r, FuncInfo) and r.module is f.module):
             return _seq(ix, e.args[0], f, env, params, depth)
     return None
 
